@@ -1,7 +1,7 @@
 INIT Init
 NEXT Next
 CONSTANT CMax = 30
-CONSTANT Variant = "ok"
+CONSTANT Variant = "gcd_twos"
 INVARIANT KernelRefines
 INVARIANT DivRoundedRefines
 INVARIANT AddSubRefines
